@@ -145,12 +145,14 @@ def check_one(text, schema, strict_blank=True):
             out.append(("original-string", {"text": text}))
         # print and re-parse in the three forms (+ str)
         shp = impl_shape(hs, HedTag)
-        for form in ("org_tag", "short_tag", "long_tag", "str"):
+        for form in ("org_tag", "short_tag", "long_tag", "str", "original"):
             try:
-                printed = str(hs) if form == "str" else hs.get_as_form(form)
+                printed = str(hs) if form == "str" else hs.get_as_original() if form == "original" else hs.get_as_form(form)
                 hs2 = HedString(printed, schema)
                 ok = impl_shape(hs2, HedTag) == shp and hs2 == hs
-                if ok and form != "str":
+                if ok and form == "original":
+                    ok = printed == hs.get_as_form("org_tag")
+                if ok and form not in ("str", "original"):
                     # printing the re-parsed tree in the same form is the identity (tag texts preserved)
                     ok = form_list(hs2, HedTag, form) == form_list(hs, HedTag, form)
                 if ok and form in ("short_tag", "long_tag"):
